@@ -28,6 +28,11 @@ PROPS = {
         "assumptions": ["equal secret-key responses under one challenge imply equal secrets by the two-transcript extractor of the Schnorr proof (standard; cited)"],
         "partial": ["extractor argument from equal responses to equal secret values is cited, not mechanised"],
     },
+    "C05": {
+        "suite": "C05", "ref_sample": 4, "trusted": CORE_TRUSTED + ["big.Int.ProbablyPrime enters the model as an observed oracle value"],
+        "assumptions": ["'never verifies against a different block/key' beyond the explicit rejection conditions proved is the strong-RSA argument of CL03 (cited)"],
+        "partial": ["unforgeability against different message blocks is the CL03 reduction (not mechanised); primality is relative to the ProbablyPrime oracle"],
+    },
     "C08": {
         "suite": "C08",
         "ref_sample": 4,
